@@ -80,6 +80,9 @@ func (w *World) AddExtFile(r *core.Rand, ei int, nrows int, inflate int) (*ExtFi
 		if inflate > 0 {
 			nb = 6
 		}
+		if w.ExtReverseSections {
+			nb = r.Range(3, 6)
+		}
 		for bi := 0; bi < nb; bi++ {
 			lo, hi := bi*len(recs)/nb, (bi+1)*len(recs)/nb
 			if lo == hi {
@@ -131,10 +134,13 @@ func (w *World) AddExtFile(r *core.Rand, ei int, nrows int, inflate int) (*ExtFi
 				eb.PadSection = r.Range(1, 300)
 				d.Padded++
 			}
+			if w.ExtReverseSections {
+				eb.NoFilters, eb.DropFilter = false, 0
+			}
 			blocks = append(blocks, eb)
 		}
 	}
-	opts := extfmt.ExtOpts{FPR: fpr, NoFileFilters: r.Chance(0.2), ReverseMetadata: r.Chance(0.2)}
+	opts := extfmt.ExtOpts{FPR: fpr, NoFileFilters: r.Chance(0.2), ReverseMetadata: r.Chance(0.2), ReverseSections: w.ExtReverseSections}
 	d.NoFileFilt, d.Reversed, d.Blocks = opts.NoFileFilters, opts.ReverseMetadata, len(blocks)
 	raw, md, err := extfmt.BuildFile(blocks, opts)
 	if err != nil {
